@@ -87,7 +87,8 @@ func FindClosestMatchingRoot(path string, roots []string) string {
 			return path
 		}
 
-		if !strings.HasPrefix(path, root) {
+		// only whole path components count, i.e. the root /foo contains /foo/bar but not /foobar
+		if !strings.HasPrefix(path, strings.TrimSuffix(root, rio.PathSeparator)+rio.PathSeparator) {
 			continue
 		}
 
